@@ -242,3 +242,15 @@ def scheme_name_collision(o):
     (_varN, result, UNPICKLER): the bare name in the decompile is captured by fickling's variable."""
     return any(ev[0] == "import" and _SCHEME.match(ev[2]) for ev in o.ref_log.events) or any(
         ev[0] == "call" and ev[1][0] == "glob" and _SCHEME.match(ev[1][2]) for ev in o.ref_log.events)
+
+
+def same_import_sequence(o):
+    """The decompile performs the VM's imports, each of them, in the VM's order.  The recorded bare-name shadowing
+    presupposes this: it is what happens although every import is there - a decompile that drops or reorders an
+    import is a different defect."""
+    try:
+        ref = [(e[1], e[2]) for e in o.ref_log.events if e[0] == "import" and e[1] != "builtins"]
+        dec = [(e[1], e[2]) for e in o.dec_log.events if e[0] == "import" and e[1] != "builtins"]
+    except Exception:
+        return True
+    return ref == dec
